@@ -374,12 +374,47 @@ impl Prop for C02 {
     }
     fn n_blocks(&self, ctx: &Ctx) -> usize {
         let s = c01_space(ctx);
-        (s.lens.len() + 12) * s.plans.len()
+        (s.lens.len() + 12) * s.plans.len() + if thorough(ctx) && !ctx.leg.slow() { 256 } else { 16 }
     }
     fn run_block(&self, b: usize, sink: &mut Sink) {
         let ctx = sink.ctx.clone();
         let s = c01_space(&ctx);
         let np = s.plans.len();
+        if b >= (s.lens.len() + 12) * np {
+            // seeded random lengths, ranges and chunk plans
+            let mut rng = Rng::from_parts(ctx.seed, &[2, b as u64]);
+            let n = if ctx.leg.slow() { 20 } else if thorough(&ctx) { 1500 } else { 300 };
+            for _ in 0..n {
+                if sink.stopped() {
+                    return;
+                }
+                let bits = rng.range(1, 63);
+                let len = 1 + rng.below(1u64 << bits);
+                let mut ent = default_ent(len);
+                let k = rng.range(1, 4) as usize;
+                ent.plan = ChunkPlan {
+                    sizes: (0..k).map(|_| if rng.chance(1, 5) { Sz::Rem(rng.below(5) as u32) } else { Sz::Abs(*rng.pick(&[0u32, 1, 2, 3, 7, 64, 1000, 4096, 65_535, 65_536])) }).collect(),
+                    pend_mask: if rng.chance(1, 4) { rng.below(7) as u32 } else { 0 },
+                    pend_period: 3,
+                };
+                if ent.plan.sizes.iter().all(|s| matches!(s, Sz::Abs(0))) {
+                    ent.plan.sizes.push(Sz::Abs(5));
+                }
+                let a = rng.below(len);
+                let span = if rng.chance(1, 2) { rng.below(200_000) } else { rng.below(len - a) };
+                let e = a.saturating_add(span).min(len - 1);
+                let v = match rng.below(4) {
+                    0 => format!("bytes={}-", len - 1 - rng.below(len.min(100_000))),
+                    1 => format!("bytes=-{}", 1 + rng.below(len.min(100_000))),
+                    _ => format!("bytes={}-{}", a, e),
+                };
+                let mut c = ServeCase::get(ent);
+                c.cap = if plan_is_small_chunks(&c.ent.plan) { 4096 } else { 1 << 18 };
+                c.hdrs.push(("range".into(), v.into_bytes()));
+                exec(&c, sink, &c02_judge);
+            }
+            return;
+        }
         let li = b / np;
         // the first 12 blocks-per-plan are the exhaustive small lengths 1..=12
         let (len, exhaustive) = if li < 12 { (li as u64 + 1, true) } else { (s.lens[li - 12], false) };
@@ -1494,8 +1529,12 @@ pub fn c07_judge(c: &ServeCase, o: &ServeObs, sink: &mut Sink) -> (Verdict, Opti
 
 /// All chunk-size tuples of 1..=4 chunks with sizes 0..=3.
 pub fn c07_tuples() -> Vec<Vec<u32>> {
+    c07_tuples_upto(4)
+}
+
+pub fn c07_tuples_upto(max_chunks: u32) -> Vec<Vec<u32>> {
     let mut v = Vec::new();
-    for k in 1..=4u32 {
+    for k in 1..=max_chunks {
         for code in 0..4u32.pow(k) {
             let mut t = Vec::new();
             let mut x = code;
@@ -1559,17 +1598,17 @@ impl Prop for C07 {
         "fault_enumeration"
     }
     fn rule(&self, _: &Ctx) -> String {
-        "exhaustive: every entity stream of 1..4 chunks with chunk lengths 0..3 (339 chunkings) x fault {early end, Err, one extra byte inside a chunk, one extra chunk} at every byte offset x response shape {200, single 206, multipart of 2 and 3 parts with the fault in each part} x {no Pending, Pending polls before the fault}. Non-trivial = distinct case in which the faulty stream was actually requested and the terminal event / delivered byte count was compared with the rule".into()
+        "exhaustive: every entity stream of 1..4 chunks (1..5 in the thorough tier) with chunk lengths 0..3 x fault {early end, Err, one extra byte inside a chunk, one extra chunk} at every byte offset x response shape {200, single 206, multipart of 2 and 3 parts with the fault in each part} x {no Pending, Pending polls before the fault}. Non-trivial = distinct case in which the faulty stream was actually requested and the terminal event / delivered byte count was compared with the rule".into()
     }
     fn n_blocks(&self, ctx: &Ctx) -> usize {
-        if ctx.leg.slow() { 40 } else { c07_tuples().len() }
+        if ctx.leg.slow() { 40 } else if thorough(ctx) { c07_tuples_upto(5).len() } else { c07_tuples().len() }
     }
     fn exhaustive(&self, _: &Ctx) -> bool {
         true
     }
     fn run_block(&self, b: usize, sink: &mut Sink) {
         let slow = sink.ctx.leg.slow();
-        let tuples = c07_tuples();
+        let tuples = if thorough(sink.ctx) && !slow { c07_tuples_upto(5) } else { c07_tuples() };
         let t = if slow { &tuples[(b * 7919) % tuples.len()] } else { &tuples[b] };
         for c in c07_cases_for_tuple(t, slow) {
             if sink.stopped() {
